@@ -146,7 +146,7 @@ CLAIMED = {
               'swapped operands give the same magnitude with the sign flipped.'),
         note=('earlier date with day of month <= 28 for month/year formats; business days in C07; the seconds difference of '
               'any two instants and the split of ymd durations in src/ddiff.c are included; ymcw month differences not '
-              'covered; one listed known finding (__ywd_diff), one defect fixed (__yd_diff)'),
+              'covered; two defects fixed (__yd_diff, __ywd_diff)'),
         technique='CBMC bounded model checking of diff kernels composed with the add kernels (inverse law)',
         design='3/C05'),
     'C20': dict(
